@@ -10,7 +10,7 @@ func init() {
 		},
 		Rule:      "a case = (generated design, method, valid payload, error returned by the stub): a declared error (ErrorResult with any flags/id/message, custom object type with generated attribute values, primitive type; declared at method or service level or reusing an API-level definition), the same wrapped with fmt.Errorf(%w), an undeclared goa.ServiceError with all flag combinations and special names (also wrapped with fmt.Errorf(%w)), a plain or wrapped Go error. Non-trivial = the error shares its status code with another declared error, or is wrapped, or is inherited from the service/API level. Distinct = SHA-256 of method, class and error.",
 		LevelText: "Generated-input search: the stub service returns generated errors through the generated server; the status, goa-error header and body on the wire and the error returned by the generated client (GoaErrorName, id, message, flags, custom attribute values) are compared with what the design assigns; undeclared errors are compared with the documented default table; exactly one WriteHeader and a well-formed body are required in every case.",
-		LevelNote: "Trusts the Go tool chain, net/http, rapid and the verifier's model/oracle and harness. Error types are built by reflection from the generated service package. Request-decoding failures are exercised in C04. The errors profile includes websocket streaming endpoints (an error returned before the stream starts is an ordinary HTTP error response) and services mounted on HTTP and gRPC at once.",
+		LevelNote: "Trusts the Go tool chain, net/http, rapid and the verifier's model/oracle and harness. Error types are built by reflection from the generated service package. Request-decoding failures are exercised in C04. The errors profile includes websocket streaming endpoints (an error returned before the stream starts is an ordinary HTTP error response) and services mounted on HTTP and gRPC at once. Default (undeclared) error responses are asked for and read as JSON, XML and gob; a third of the plain errors are well-known error values of the standard library (context.Canceled, io.EOF ...).",
 		Technique: "property-based testing (rapid): round trip of generated error values through generated server and client against the design's error mapping and the documented default status table",
 		Assumptions: []string{
 			"an API-level Error is a reusable definition: only services/methods that declare Error(name) again may return it; its HTTP mapping is inherited",
